@@ -48,6 +48,11 @@ def connOptions (h : Hdr) : List Bytes :=
 /-- the header keys `removeHopByHopHeaders` deletes because a `Connection` option names them (`h.Del(option)`) -/
 def connDrops (h : Hdr) : List Bytes := (connOptions h).map Go.canon
 
+/-- deleting every header that a `Connection` option names (`h.Del(option)` for each option): what
+    `removeHopByHopHeaders` of `httputil.ReverseProxy` does first, and what the stand-alone proxy's
+    `ServeHTTP` does to the client request before its own hop-by-hop filter -/
+def dropConnNamed (h : Hdr) : Hdr := (connDrops h).foldl Hdr.del h
+
 /-- `strings.Join` -/
 def joinBytes (sep : Bytes) : List Bytes → Bytes
   | [] => []
